@@ -35,21 +35,31 @@ CFG = {
     "level_note": "Reader is lenient about c-printable (the loader is; checked by the re-read oracle). resolve_plain is "
                   "modelled over modelled core parsers (i64/f64 grammar + finiteness). stream_unquoted_reread_partial assumes "
                   "the decoded value of a source plain scalar is itself one-line plain-safe (checked by sloop/ssv, not proved). "
-                  "NOT proved: alias_sound for enforce_anchor_soundness and emit_load for whole documents (block structure, "
-                  "block scalars, comments) - these are covered only by the in-process and CLI loops (ALIAS-FAIL / LOOP-FAIL).",
+                  "alias_sound is proved for anchor tables with no mark below an alias node (necessary for the pass as a function: "
+                  "alias_sound_needs_opaque, replayed on the real function); tables built from documents do carry such marks and "
+                  "rely on a mirror invariant outside the model. emit_load_partial covers nested block mappings with string leaves "
+                  "at token-line level (sequences, flow, block scalars, comments, line tokenisation: CLI loop only). "
+                  "resolve_plain = core schema is proved on every text outside the explicit deviations (i64/f64 overflow).",
     "technique": "Lean 4 proof (induction over strings) + differential correspondence (decision functions via CLI hook "
                  "server and library hooks, in-process re-read oracle, CLI end-to-end loop)",
     "variants": [{"features": [], "env": {"SV_CLI": _CLI}}],
     "needs_cli": True,
     "lean_modules": ["SuccinctlyVerif.Props.C15"],
     "lean_files": ["SuccinctlyVerif/Props/C15.lean", "SuccinctlyVerif/Proof/YamlEmit.lean",
-                   "SuccinctlyVerif/Model/YamlEmit.lean", "SuccinctlyVerif/Spec/YamlScalar.lean"],
+                   "SuccinctlyVerif/Proof/YamlAnchor.lean", "SuccinctlyVerif/Proof/YamlResolve.lean",
+                   "SuccinctlyVerif/Proof/YamlBlock.lean", "SuccinctlyVerif/Model/YamlEmit.lean",
+                   "SuccinctlyVerif/Model/YamlAnchor.lean", "SuccinctlyVerif/Model/YamlBlock.lean",
+                   "SuccinctlyVerif/Spec/YamlScalar.lean"],
     "generated": ["C15"],
     "required_theorems": ["SV.Props.C15.current_is_fixed", "SV.Props.C15.double_quote_reread",
                           "SV.Props.C15.single_quote_reread", "SV.Props.C15.plain_reread",
                           "SV.Props.C15.scalar_reread", "SV.Props.C15.key_reread",
                           "SV.Props.C15.stream_smart_quoted_reread", "SV.Props.C15.stream_string_value_reread",
-                          "SV.Props.C15.indent_step_positive", "SV.Props.C15.current_source_reread"],
+                          "SV.Props.C15.indent_step_positive", "SV.Props.C15.current_source_reread",
+                          "SV.Props.C15.alias_sound", "SV.Props.C15.alias_sound_needs_opaque",
+                          "SV.Props.C15.stream_alias_unsound_redeclared", "SV.Props.C15.stream_alias_unsound_navigation",
+                          "SV.Props.C15.resolve_plain_is_core_schema", "SV.Props.C15.scalar_reread_core",
+                          "SV.Props.C15.emit_load_partial", "SV.Props.C15.emit_load_indent_partial"],
     "nontrivial": _c15_nontrivial,
     "canon": _c15_canon,
     "rule": "request = one decision-function call on a string (quote/resolve, with style, context, indent) or one "
